@@ -26,18 +26,18 @@ FixOp(o) == [op |-> o.op, a |-> o.a, S |-> SeqSet(o.S), T |-> SeqSet(o.T)]
 
 \* o is an operation the design spec can take in the current state (OpsFor without the size bounds)
 OpValid(o) ==
-    CASE o.op = "refine" -> KeysRef = KeysAll
+    CASE o.op = "refine" -> KeysRef = KeysAll /\ st # "MX"
       [] o.op = "refspace" -> st = "M" /\ \A c \in cells : CanRefine(c, {o.a[1]})
-      [] o.op = "refby" -> st # "M" /\ o.S # {} /\ o.S \subseteq KeysRef
-      [] o.op = "hierand" -> st # "M" /\ o.S # {} /\ o.T # {} /\ o.S # o.T /\ (o.S \cup o.T) \subseteq KeysRef
+      [] o.op = "refby" -> ~IsMul /\ o.S # {} /\ o.S \subseteq KeysRef
+      [] o.op = "hierand" -> ~IsMul /\ o.S # {} /\ o.T # {} /\ o.S # o.T /\ (o.S \cup o.T) \subseteq KeysRef
       [] o.op = "take" -> o.S # {} /\ o.S \subseteq KeysAll /\ o.S # KeysAll
-      [] o.op \in {"select", "remove"} -> st # "M" /\ o.S # {} /\ o.S \subseteq KeysAll /\ o.S # KeysAll
-      [] o.op = "union" -> st # "M" /\ o.S # {} /\ o.T # {} /\ o.S # o.T /\ (o.S \cup o.T) \subseteq KeysAll /\ o.a[1] \in {0, 1}
+      [] o.op \in {"select", "remove"} -> ~IsMul /\ o.S # {} /\ o.S \subseteq KeysAll /\ o.S # KeysAll
+      [] o.op = "union" -> ~IsMul /\ o.S # {} /\ o.T # {} /\ o.S # o.T /\ (o.S \cup o.T) \subseteq KeysAll /\ o.a[1] \in {0, 1}
       [] o.op = "slice" -> /\ st \in {"S", "H", "M"} /\ o.a[1] \in Dirs
                            /\ 0 <= o.a[2] /\ o.a[2] < o.a[3] /\ o.a[3] <= sg.n[o.a[1]]
                            /\ ~(o.a[2] = 0 /\ o.a[3] = sg.n[o.a[1]])
                            /\ \E c \in cells : SliceKeeps(c, o.a[1], o.a[2], o.a[3])
-      [] o.op = "trim" -> /\ st # "M" /\ o.a[1] \in Dirs /\ o.a[2] \in 1..(NAtoms(o.a[1]) - 1) /\ o.a[3] \in {1, -1}
+      [] o.op = "trim" -> /\ ~IsMul /\ o.a[1] \in Dirs /\ o.a[2] \in 1..(NAtoms(o.a[1]) - 1) /\ o.a[3] \in {1, -1}
                           /\ o.a[4] \in 0..L
                           /\ TrimCells(cells, o.a[1], o.a[2], o.a[3], o.a[4]) # {}
                           /\ \A z \in cells : TrimOK(z, o.a[1], o.a[2], o.a[4])
@@ -59,21 +59,8 @@ ENext == /\ k < Len(Cases[cid].hist)
          /\ cid' = cid
 ESpec == EInit /\ [][ENext]_evars
 
-CellObs(cs) == {[key |-> Key(c), v |-> CellVol2(c), m |-> CellMom6(c)] : c \in cs}
 Emit(x) == PrintT(<<"VF", ToJson(x)>>)
-IsTrim == Len(hist) > 0 /\ hist[Len(hist)].op = "trim"
-Prediction ==
-    LET bd == HasBoundary(st)
-    IN [cid |-> cid, k |-> k, st |-> st, bd |-> bd, vol2 |-> Vol2(cells),
-        cells |-> CellObs(cells),
-        B |-> IF bd THEN Boundary(cells) ELSE {},
-        I |-> IF bd THEN Interfaces(cells) ELSE {},
-        trim |-> IsTrim,
-        ccells |-> CellObs(comp),
-        cB |-> IF bd /\ IsTrim THEN Boundary(comp) ELSE {},
-        cI |-> IF bd /\ IsTrim THEN Interfaces(comp) ELSE {},
-        cut |-> IF bd /\ IsTrim THEN CutFacets(cells, comp) ELSE {}]
-EmitPrediction == Emit(Prediction)
+EmitPrediction == Emit([cid |-> cid, k |-> k, pred |-> Prediction])
 EvalOps == OpNames
 EvalRef == 0..3
 =============================================================================
